@@ -88,6 +88,9 @@ fn writer(tier: &str) -> Vec<String> {
         }
         v.push(format!("qflush:cap=16:qcap=1:prog={}:P=3", prog));
         v.push(format!("qflush:cap=16:h=1:prog={}:P=3", prog));
+        // a bounded spy channel behind the buffered sink: a flush that is refused must say so
+        v.push(format!("qflush:cap=6:sq=1:h=1:prog={}:P=3", prog));
+        v.push(format!("qflush:cap=6:sq=1:prog={}WF:P=3", prog));
         v.push(format!("qflush:cap=16:h=1:qcap=2:prog={}:P=3", prog));
     }
     // unmerged tree: split on the first operation for parallelism
@@ -124,6 +127,10 @@ fn holder(tier: &str) -> Vec<String> {
     }
     let mut v: Vec<String> = progs.iter().map(|p| format!("holder:prog={}", p)).collect();
     v.push(format!("holderseq:depth={}", if tier == "thorough" { 6 } else { 4 }));
+    // the global client seen from other threads and from thread-local destructors
+    v.push("probe:cfg=A".to_string());
+    v.push("probe:cfg=F".to_string());
+    v.push("probe:cfg=G".to_string());
     v
 }
 
@@ -531,6 +538,7 @@ fn c03(tier: &str) -> Vec<String> {
     for i in 0..30 {
         v.push(format!("calls:part=seq:tier={}:chunk={}:of=30", tier, i));
     }
+    v.push("calls:part=reentrant".to_string());
     // two or three threads on one client, failures overlapping inside the error handler
     for prog in ["r.r", "r.i", "rr.r", "ri.ir", "r.o", "t.r", "r.r.r", "rt.tr"] {
         let p = if prog.len() >= 5 { ":P=3" } else { "" };
